@@ -53,7 +53,8 @@ def run_steps(ctx: Ctx):
             targets = list(spec[-1]['outputs'])
         tlist = targets or outs_all
         nr = rng.choice([5, 20, 50]); ub = rng.random() < 0.5
-        case0 = {'system': n, 'components': [(s['name'], s['levels'], s['na']) for s in spec], 'costs': costs, 'targets': targets,
+        use_ex = n % 4 == 1
+        case0 = {'system': n, 'components': [(s['name'], s['levels'], s['na']) for s in spec], 'costs': costs, 'targets': targets, 'executor': use_ex,
                  'num_refine': nr, 'update_bounds': ub}
         # initialisation: one uninitialised component per step, in listing order, before anything else
         ninit = 0
@@ -70,7 +71,16 @@ def run_steps(ctx: Ctx):
             scan = external_indicators(system, tlist, nr)
             before = {c.name: (set(c.active_set), set(c.candidate_set)) for c in system.components}
             np.random.seed(seed)
-            res = system.refine(targets=targets, num_refine=nr, update_bounds=ub)
+            if use_ex:      # the candidates are scored through an executor that completes the predictions in a random order
+                import c15, random as _random
+                ex = c15.SchedExecutor(lambda m, _r=_random.Random(seed): _r.sample(range(m), m))
+                saved_wait = c15.install_wait(ex)
+                try:
+                    res = system.refine(targets=targets, num_refine=nr, update_bounds=ub, executor=ex)
+                finally:
+                    c15.restore_wait(saved_wait)
+            else:
+                res = system.refine(targets=targets, num_refine=nr, update_bounds=ub)
             case = {**case0, 'step': ninit + step, 'numpy_seed': seed, 'scan': [(s['comp'], s['alpha'], s['beta'], s['err'], s['cost']) for s in scan],
                     'chosen': (res['component'], res['alpha'], res['beta'])}
             nums = [s for s in scan if s['indicator'] == s['indicator']]
